@@ -16,12 +16,17 @@ Simplifications (each observable through the byte-exact differential):
 * `BnodeProfile::out_degree` is never read and is omitted; so is the dead `atoms.next()` skip
   in `build_labelled` (the loop re-creates `t.atoms()`, the advanced iterator is dropped).
 * recursion of the writer is bounded by `fuel` (depth); running out sets `fault`.
+* `nt::quoted_string` is the model of C03 (`SophiaModel.NT.quotedString`, defined over the escape table
+  regenerated from turtle/src/serializer/nt.rs), so a change of the table is followed here too.
+* `TurtleConfig::with_indentation` (turtle.rs) is `indentAccepted`: the assertion that decides which
+  indentation strings a configuration can carry (switched by `Gen.PrettyFlags.indentTurtleWs`).
 -/
 import SophiaModel.Basic.TermOrder
 import SophiaModel.Regex.Comb
 import SophiaModel.Gen.Regexes
 import SophiaModel.Gen.PrettyFlags
 import SophiaModel.Model.TurtleTokens
+import SophiaModel.Model.NT
 
 namespace SophiaModel.Pretty
 open SophiaModel Term
@@ -318,6 +323,21 @@ structure Cfg where
   prefixMap : List (Str × Str)
   indentation : Str
 
+/-- white space of the Turtle / TriG grammar: `WS ::= #x20 | #x9 | #xD | #xA` -/
+def isTurtleWs (c : Char) : Bool := c == ' ' || c == '\t' || c == '\r' || c == '\n'
+
+/-- `char::is_whitespace`: the Unicode property White_Space -/
+def isUnicodeWs (c : Char) : Bool :=
+  let n := c.toNat
+  (9 ≤ n && n ≤ 13) || n == 0x20 || n == 0x85 || n == 0xA0 || n == 0x1680 || (0x2000 ≤ n && n ≤ 0x200A)
+  || n == 0x2028 || n == 0x2029 || n == 0x202F || n == 0x205F || n == 0x3000
+
+/-- the assertion of `TurtleConfig::with_indentation`: does a configuration with this indentation exist?
+Before /repo d9e6461: `indentation.chars().all(char::is_whitespace)`; since (notes/fixes/C04-indent-turtle-ws.diff): only
+Turtle white space. -/
+def indentAccepted (ind : Str) : Bool :=
+  if Gen.PrettyFlags.indentTurtleWs then ind.all isTurtleWs else ind.all isUnicodeWs
+
 /-- `[(P, N)]::get_checked_prefixed_pair` (api/src/prefix/_prefix_map.rs) -/
 def getCheckedPrefixedPair (pm : List (Str × Str)) (iri : Str) (check : Str → Bool) : Option (Str × Str) :=
   (pm.foldl (fun (acc : Nat × Option (Str × Str)) pn =>
@@ -357,11 +377,8 @@ def shorthand (dt lex : Str) : Bool :=
   || (dt == xsdDouble && Re.matchB Gen.TTL_DOUBLE w)
   || (dt == xsdBoolean && Re.matchB Gen.TTL_BOOLEAN w)
 
-/-- `nt::quoted_string` -/
-def quotedString (s : Str) : Str :=
-  s.flatMap (fun c =>
-    if c == '\n' then ['\\', 'n'] else if c == '\r' then ['\\', 'r']
-    else if c == '"' then ['\\', '"'] else if c == '\\' then ['\\', '\\'] else [c])
+/-- `nt::quoted_string` (the model C03 proves invertible, over the regenerated escape table) -/
+def quotedString (s : Str) : Str := NT.quotedString s
 
 /-- `write_literal` -/
 def writeLiteral (cfg : Cfg) (t : Term) : Str :=
